@@ -803,13 +803,75 @@ func c05Run(r *core.Run, idx int, rng *rand.Rand) {
 	r.Violate(core.Violation{Clause: clause, Class: class, Reason: "accepted although " + why, Workload: wl, Index: idx, Case: desc, Observed: call.Describe()})
 }
 
+// c05Registration: ONE provider; the requester's registration (signing key, signing requirement) changes between
+// requests. Acceptance must follow the CURRENT registration.
+func c05Registration(r *core.Run, idx int, rng *rand.Rand) {
+	const wl = "registration_changes"
+	e := env.Static(env.Opts{})
+	keyName, ars := "sp0", ""
+	reg := func() {
+		d := stdSP(0)
+		d.Cert = keys.Get(keyName)
+		d.AuthnRequestsSigned = ars
+		mustRegister(e.W, d, "appA")
+	}
+	reg()
+	d := stdSP(0)
+	for k := 0; k < 8; k++ {
+		switch rng.Intn(4) {
+		case 0:
+			keyName = []string{"sp0", "sp1", "sp2", "sp3"}[rng.Intn(4)]
+			reg()
+		case 1:
+			ars = []string{"", "false", "true", "1"}[rng.Intn(4)]
+			reg()
+		}
+		signWith := []string{"", "sp0", "sp1", "sp2", "sp3", "attacker"}[rng.Intn(6)]
+		binding := []string{"redirect", "post"}[rng.Intn(2)]
+		a := validAuthn(rng, d)
+		x := a.XML(rng)
+		s := ssoSend{Binding: binding, XML: x, HasRelay: true, Relay: "MKrelay"}
+		if signWith != "" {
+			if binding == "redirect" {
+				s.SignKey, s.Alg = keys.Get(signWith), spsim.AlgRSASHA256
+			} else {
+				sx, err := spsim.SignEnveloped(x, keys.Get(signWith), spsim.XMLSignOpts{Alg: spsim.AlgRSASHA256, DropKey: rng.Intn(2) == 0})
+				if err != nil {
+					panic(err)
+				}
+				s.XML = sx
+			}
+		}
+		call, _ := s.do(e)
+		required := ars == "true" || ars == "1"
+		class := fmt.Sprintf("registration|registered_key=%s|ars=%q|signed_with=%s|%s|step=%d", keyName, ars, signWith, binding, k)
+		desc := map[string]any{"step": k, "registered_key": keyName, "AuthnRequestsSigned": ars, "signed_with": signWith, "binding": binding}
+		r.Eval(fmt.Sprintf("%s|%d", class, idx))
+		r.Count("registration_sequence_requests", 1)
+		if call.Panic != "" {
+			r.Violate(core.Violation{Clause: "panic", Class: class, Reason: call.Panic, Workload: wl, Index: idx, Case: desc, Observed: call.Describe()})
+			return
+		}
+		if !call.Accepted() {
+			continue
+		}
+		r.Count("registration_sequence_accepted", 1)
+		if signWith != "" && signWith != keyName {
+			r.Violate(core.Violation{Clause: "R2_signature_of_unregistered_key_accepted", Class: class, Reason: fmt.Sprintf("accepted a request signed with %s while the key currently registered for the requester is %s", signWith, keyName), Workload: wl, Index: idx, Case: desc, Observed: call.Describe()})
+		}
+		if signWith == "" && required {
+			r.Violate(core.Violation{Clause: "R1_unsigned_accepted_although_currently_required", Class: class, Reason: "accepted an unsigned request while the current registration says AuthnRequestsSigned=" + ars, Workload: wl, Index: idx, Case: desc, Observed: call.Describe()})
+		}
+	}
+}
+
 func init() {
 	register(&Prop{
 		ID: "C05", Level: "exploration", DeathIsViolation: true,
 		TimeoutQuick: 5 * time.Minute, TimeoutThorough: 30 * time.Minute,
 		Build: func(c *Ctx) []core.Workload {
 			r := c.Run
-			r.Rule = "configuration grid AuthnRequestsSigned {absent,false,0,true,1} x SP certificate {none,one} x WantAuthRequestsSigned {'',false,true,1} (40) crossed with labelled mutations of a validly signed message (valid control, unsigned, field edits after signing, signature bit flips / truncation, RelayState swap, algorithm substitution, signature stripping, attacker key with foreign / victim / missing KeyInfo, other registered SP's key, signature wrapping variants, duplicated children / signatures, Reference URI games, cross-binding moves, parameters split between query and body, duplicated parameters, replayed signature, arbitrary parameter bytes). Oracle = membership of what was persisted in the set of contents the simulated SPs really signed (by key, binding, every request field, RelayState). Distinct = (mutation, configuration, transport, outcome)."
+			r.Rule = "configuration grid AuthnRequestsSigned {absent,false,0,true,1} x SP certificate {none,one} x WantAuthRequestsSigned {'',false,true,1} (40) crossed with labelled mutations of a validly signed message (valid control, unsigned, field edits after signing, signature bit flips / truncation, RelayState swap, algorithm substitution, signature stripping, attacker key with foreign / victim / missing KeyInfo, other registered SP's key, signature wrapping variants, duplicated children / signatures, Reference URI games, cross-binding moves, parameters split between query and body, duplicated parameters, replayed signature, arbitrary parameter bytes). Oracle = membership of what was persisted in the set of contents the simulated SPs really signed (by key, binding, every request field, RelayState). A second workload keeps ONE provider alive while the requester's registered key and signing requirement change between requests; acceptance must follow the current registration. Distinct = (mutation, configuration, transport, outcome)."
 			r.Assume("a signature located only where the other binding defines it, or parameters whose occurrences in query and body differ, are recorded but not judged by the second sentence of the property (R2); the first sentence (R1) is always judged")
 			r.Require("distinct_mutations", int64(len(c05Mutations)))
 			r.Require("distinct_configs", 40)
@@ -817,7 +879,11 @@ func init() {
 			r.Require("accepted_no_signature_needed", 20)
 			n := 40 * len(c05Mutations)
 			r.Require("primed_with_accepted_genuine_request", 100)
-			return []core.Workload{{Name: "forgeries", N: n*c.Pick(2, 4) + c.Pick(400, 20000), Fn: c05Run}}
+			r.Require("registration_sequence_accepted", 100)
+			return []core.Workload{
+				{Name: "forgeries", N: n*c.Pick(2, 4) + c.Pick(400, 20000), Fn: c05Run},
+				{Name: "registration_changes", N: c.Pick(200, 2000), Fn: c05Registration},
+			}
 		},
 	})
 }
